@@ -150,6 +150,16 @@ Theorem C18_auth_headers : forall ops k v,
 Proof. exact auth_headers_gen. Qed.
 Print Assumptions C18_auth_headers.
 
+(* The sso-auth PROCESS (cmd/sso-auth: logging > SetSecurityHeaders > TimeoutHandler > mux; repaired by
+   d58c694, formerly finding K5): every response carries every header of the generated table with exactly
+   its value - also the 503 that http.TimeoutHandler itself writes when a provider call outlasts
+   server.timeout.request (fired = true). *)
+Theorem C18_auth_process_headers : forall fired ops k v,
+  forallb aop_ok ops = true -> tbl_lookup k AT = Some v ->
+  hget k (auth_process AT fired ops) = [VStr v].
+Proof. exact auth_process_headers. Qed.
+Print Assumptions C18_auth_process_headers.
+
 (* HSTS cannot be weakened by an upstream — for the REPAIRED shape (ModifyResponse also deletes
    Strict-Transport-Security from the upstream's headers and trailers): with secure cookies every
    response carries exactly the proxy's value (no 1xx without TimeoutHandler: finding K3). *)
